@@ -553,3 +553,11 @@ def drive(prop, tier, seed, nshards, budget_s, only=None):
         print('HARNESS-ERROR property=%s no case was evaluated' % prop)
         return EXIT_HARNESS
     return EXIT_OK
+
+
+def target(value_, label=''):
+    """hypothesis.target() that is a no-op outside a Hypothesis run (replay mode)."""
+    from hypothesis import control
+
+    if control.currently_in_test_context() and value_ == value_ and abs(value_) != float('inf'):
+        control.target(float(value_), label=label)
